@@ -126,7 +126,7 @@ class HyperVFile:
         obj = {}
 
         for key, entry in self.root.items():
-            obj[key] = entry.as_dict()
+            obj[key] = entry.as_dict() if entry.type == KeyDataType.Node else entry.value
 
         return obj
 
